@@ -261,7 +261,7 @@ def subtree_removed(prog, cg, eff, chk, T10):
     for f in prog.functions.values():
         if f.body is None or f.is_pattern or not prog.in_repo(f.file):
             continue
-        for s_ in eff.sites(f):
+        for s_ in sites_mod.find_sites(f):      # the statement text is all that is looked at: no parse needed
             if 'recursive_triggers' in s_.text.lower():
                 recursive_on = True
     for gen, qn, closure in (('v1', V1 + 'engine_database_impl::remove_crate', ('cratehierarchy', 'listhierarchy')),
@@ -561,7 +561,7 @@ def whole_string_binds(prog, eff, chk, rid):
     for f in sorted(prog.functions.values(), key=lambda x: (x.file or '', x.line)):
         if f.body is None or f.is_pattern or not prog.in_repo(f.file):
             continue
-        for s_ in eff.sites(f):
+        for s_ in sites_mod.find_sites(f):      # only the bound expressions are looked at: no parse needed
             for b in s_.binds:
                 e = strip(b, explicit=True)
                 t = (e.get('dtype') or e.get('type') or '')
